@@ -5,11 +5,15 @@
 (* to one representative per class the specification distinguishes          *)
 (* (CASigsValid / ChainMismatch / CUSigValid / fields): Gossip.tla treats    *)
 (* all members of a class by the same expression.                            *)
+(* With Chain = TRUE the chain events (blocks connecting with any set of    *)
+(* funding outputs spent, the block at the tip disconnecting) are           *)
+(* interleaved anywhere as well and count as messages.                      *)
 EXTENDS Gossip
-CONSTANT MaxMsgs
+CONSTANT MaxMsgs, Chain
 
 MCNext == \/ nmsg < MaxMsgs /\ \E m \in Universe : Recv(m)
           \/ nmsg < MaxMsgs /\ \E z \in ZOUniverse : Zombify(z.c, z.signer)
+          \/ Chain /\ nmsg < MaxMsgs /\ \E b \in ChainUniverse : Step(b)
           \/ \E c \in Chans : \E i \in 1..Len(stash[c]) : ReplayOne(c, i)
 MCSpec == Init /\ [][MCNext]_vars
 
@@ -18,5 +22,5 @@ MCSpec == Init /\ [][MCNext]_vars
 (* index, and a second copy of a message can never do more than the first   *)
 (* (it is stale, rejected or kept-alive for the same reason).               *)
 MCView == <<chans, pol, nodes, [c \in Chans |-> {stash[c][i] : i \in 1..Len(stash[c])}],
-            zombie, zkeys, closed, rejects, nmsg>>
+            zombie, zkeys, closed, rejects, nmsg, tip, verts, reorg>>
 =============================================================================
